@@ -167,6 +167,27 @@ func concOps() []concOp {
 			out, err := textwire.EvaluateFile(filepath.Join(filepath.Dir(abs), "components", "card.tw"), d)
 			return fmt.Sprintf("out=%s err=%v", out, err)
 		}},
+		// built-ins on short strings outside ASCII, different for every goroutine
+		{"EvaluateString(string built-ins)", false, func(tpl *textwire.Template, data map[string]any, abs string) string {
+			out, err := textwire.EvaluateString("{{ label.reverse() }}|{{ label.upper() }}|{{ label.capitalize() }}|{{ label.at(1) }}|{{ label.truncate(3) }}|{{ (label + who).reverse() }}|{{ label.split(\"\").join(\"-\") }}|{{ label.len() }}", data)
+			return fmt.Sprintf("out=%s err=%v", out, err)
+		}},
+		// calls that fail because of their data, next to a call that reads a name its own data lacks (it must fail)
+		{"EvaluateString(unsupported data)", false, func(tpl *textwire.Template, data map[string]any, abs string) string {
+			out, err := textwire.EvaluateString("{{ secret }} {{ who }}", map[string]any{"secret": "secret of " + fmt.Sprint(data["who"]), "who": data["who"], "ch": make(chan int)})
+			return fmt.Sprintf("out=%s err=%v", out, err)
+		}},
+		{"EvaluateString(loop as data)", false, func(tpl *textwire.Template, data map[string]any, abs string) string {
+			out, err := textwire.EvaluateString("{{ secret }} {{ who }}", map[string]any{"secret": "secret of " + fmt.Sprint(data["who"]), "who": data["who"], "loop": 1})
+			return fmt.Sprintf("out=%s err=%v", out, err)
+		}},
+		{"EvaluateString(reads a name its data lacks)", false, func(tpl *textwire.Template, data map[string]any, abs string) string {
+			out, err := textwire.EvaluateString("{{ gid }} {{ secret }}", map[string]any{"gid": data["gid"]})
+			return fmt.Sprintf("out=%s err=%v", out, err)
+		}},
+		{"String(plain, unsupported data)", false, func(tpl *textwire.Template, data map[string]any, abs string) string {
+			return str("plain")(tpl, map[string]any{"gid": data["gid"], "who": data["who"], "secret": "s", "f": func() {}}, abs)
+		}},
 		{"EvaluateFile(plain)", false, func(tpl *textwire.Template, data map[string]any, abs string) string {
 			out, err := textwire.EvaluateFile(abs, data)
 			return fmt.Sprintf("out=%s err=%v", out, err)
@@ -292,7 +313,7 @@ func init() {
 					// every goroutine brings pointers of its own (to structs, chained)
 					plan := &concPlan{Name: fmt.Sprintf("plan%d", g), Seats: g}
 					acct := &concAccount{Owner: fmt.Sprintf("owner%d", g), Plan: plan, Next: &concAccount{Owner: "next", Plan: plan}}
-					return map[string]any{"gid": g, "who": fmt.Sprintf("g%d", g), "items": items, "zero": 0, "acct": acct, "price": float64(g%9) + 3.125}
+					return map[string]any{"gid": g, "who": fmt.Sprintf("g%d", g), "items": items, "zero": 0, "acct": acct, "price": float64(g%9) + 3.125, "label": fmt.Sprintf("é%d中ß😀", g)}
 				}
 				base := make([][]string, cfg.g)
 				for g := 0; g < cfg.g; g++ {
@@ -364,6 +385,7 @@ func init() {
 					}
 				}
 				freshLoadBurst(c, i)
+				bigInputBurst(c, tpl, i)
 				c.Count("operations_in_histories", len(all))
 				c.Count("operations_overlapping_another_kind", overlapped)
 				if i < 4 {
@@ -524,6 +546,62 @@ func freshLoadBurst(c *core.Ctx, round int) {
 	}
 	c.Eval(G * 6 * len(ops))
 	c.Count("fresh_load_concurrent_calls", G*6*len(ops))
+}
+
+// bigInputBurst: every goroutine alternates between a failing Response (all of them render the same built-in
+// error page, some 2 KiB of template) and an inline page of its own of 1..3 KiB
+func bigInputBurst(c *core.Ctx, tpl *textwire.Template, round int) {
+	const G, N = 16, 300
+	srcOf := func(g int) string {
+		return strings.Repeat(fmt.Sprintf("<li>item of g%d {{ gid }}</li>\n", g), 40+g*4) + "{{ who }}"
+	}
+	dataOf := func(g int) map[string]any {
+		return map[string]any{"gid": g, "who": fmt.Sprintf("b%d", g), "zero": 0, "items": []int{g}}
+	}
+	respond := func(g int) string {
+		rec := newRecorder()
+		err := tpl.Response(rec, "bad2", dataOf(g))
+		return fmt.Sprintf("body=%s err=%v", rec.body.String(), err)
+	}
+	inline := func(g int) string {
+		out, err := textwire.EvaluateString(srcOf(g), dataOf(g))
+		return fmt.Sprintf("out=%s err=%v", out, err)
+	}
+	want := make([][2]string, G)
+	for g := 0; g < G; g++ {
+		want[g] = [2]string{respond(g), inline(g)}
+	}
+	bad := make([]string, G)
+	var wg sync.WaitGroup
+	start := make(chan struct{})
+	for g := 0; g < G; g++ {
+		wg.Add(1)
+		go func(g int) {
+			defer wg.Done()
+			<-start
+			for n := 0; n < N; n++ {
+				var got string
+				if (n+g)%2 == 0 {
+					got = respond(g)
+				} else {
+					got = inline(g)
+				}
+				if got != want[g][(n+g)%2] && bad[g] == "" {
+					bad[g] = fmt.Sprintf("call %d of goroutine %d (%s) returned\n%s\nalone it returns\n%s", n, g, []string{"failing Response", "inline page"}[(n+g)%2], clipS(got, 300), clipS(want[g][(n+g)%2], 300))
+				}
+			}
+		}(g)
+	}
+	close(start)
+	wg.Wait()
+	c.Eval(G * N)
+	c.Count("big_input_concurrent_calls", G*N)
+	for _, b := range bad {
+		if b != "" {
+			c.Violation("concurrent:big-inputs", b, map[string]any{"round": round})
+			return
+		}
+	}
 }
 
 // coldBurst issues the first string-API calls of the process from many goroutines at once and
